@@ -1197,6 +1197,12 @@ def crash_run(prop, tier, seed, plan, assumptions):
             paths = vlib.maximal_paths(a["emitted"]["REPLAY"])
             # crash points are only counted after a completed flush: keep behaviours that contain one
             paths = [p for p in paths if any(s["op"] in ("flush", "compact") for s in p[:-1])]
+            all_paths = len(paths)
+            cap = q(tier, 20000, 30000)
+            if len(paths) > cap:
+                # a seed-dependent stride through the behaviours (TLC has still explored every state; the crash model RawCrash.tla is exhaustive on its own bounds)
+                stride = -(-len(paths) // cap)
+                paths = paths[seed % stride::stride]
             if not samples and paths:
                 p0 = max(paths, key=len)
                 samples.append({"ops": ["%s(%s)" % (s["op"], ",".join(map(str, s["args"]))) for s in p0], "io_of_last_op": p0[-1]["io"]})
@@ -1225,7 +1231,7 @@ def crash_run(prop, tier, seed, plan, assumptions):
                                   "steps_full": paths[si::nsh][v["behaviour"]]})
                         violations.append(v)
             runs.append({k: item[k] for k in ("names", "sizes", "depth", "ops")} | {"pre": item.get("pre", []), "prewrite": item.get("prewrite", False),
-                        "asis_states": a["distinct"], "design_states": d["distinct"], "behaviours_with_flush": len(paths)})
+                        "asis_states": a["distinct"], "design_states": d["distinct"], "behaviours_with_flush": all_paths, "behaviours_replayed": len(paths)})
         finally:
             shutil.rmtree(wd, ignore_errors=True)
     # a different I/O order than the model's is reported in the evidence, not judged: the crash images above were built from the REAL event stream
@@ -1316,12 +1322,12 @@ def add_crash_model(res, cm):
 def c05(prop, tier, seed):
     plan = [
         dict(names=["a", "b", "c", "d"], pre=["a", "b", "c"], prewrite=True, sizes=[3], maxfile=40, depth=q(tier, 4, 6),
-             ops=["create", "write", "remove", "flush", "compact"], choices=q(tier, 8, 40)),
+             ops=["create", "write", "remove", "flush", "compact"], choices=q(tier, 8, 24)),
         # freed extents (relocation / removal) vs the per-region flush, then reuse of the extent by a new region
         dict(names=["a", "b", "c", "d"], pre=["a", "b", "c"], prewrite=True, sizes=[1, 3], maxfile=40, depth=q(tier, 4, 5),
-             ops=["create", "write", "remove", "rflush"], histk=q(tier, 2, 3), choices=q(tier, 8, 40)),
+             ops=["create", "write", "remove", "rflush"], histk=q(tier, 2, 3), choices=q(tier, 8, 24)),
         dict(names=["a", "b"], sizes=[3, 5], maxfile=40, depth=q(tier, 6, 7), ops=["create", "write", "truncate", "rename", "remove", "flush", "rflush"],
-             wkinds=["append", "at0", "tw1"], choices=q(tier, 8, 40)),
+             wkinds=["append", "at0", "tw1"], choices=q(tier, 8, 24)),
     ]
     with cf.ThreadPoolExecutor(1) as ex:
         fm = ex.submit(crash_model, tier)
